@@ -21,7 +21,8 @@ def impl_state(ld):
                 maxW=rs(ld.max_weight) if ld.weighted else "0",
                 total=rs(ld.total_weight()),
                 maxCnt=int(ld.max_weight_count) if ld.weighted else 0,
-                nweight=len(ld.weight) if ld.weighted else 0)
+                nweight=len(ld.weight) if ld.weighted else 0,
+                pos=[ld.item_to_position.get(x) for x in ld.items], npos=len(ld.item_to_position))
 
 
 def predicates(ld):
@@ -268,8 +269,51 @@ def run(ctx):
             ctx.disagreement("listdict-driver-error", dict(rep, model=resp))
             continue
         ctx.traces += 1
+        outs = [{k: v for k, v in o.items() if k not in ("pos", "npos")} for o in outs]      # the hand model has no position map
         if mouts != outs:
             i = next((i for i in range(min(len(outs), len(mouts))) if outs[i] != mouts[i]), min(len(outs), len(mouts)))
             ctx.disagreement("listdict-state", dict(rep, first_diff_op=i,
                                                      impl=outs[i] if i < len(outs) else None,
                                                      model=mouts[i] if i < len(mouts) else None))
+    generated_model(ctx, reqs, impl_outs, metas)
+
+
+def generated_model(ctx, reqs, impl_outs, metas):
+    """the Lean code GENERATED from the class source (harness/pyclass2lean.py -> Gen/ListDictGen.lean), run by its own
+    driver on the same operation histories: validates the translator and ties the refinement theorems
+    (Props/C16b.lean) to the code.  Compared: items, weights, max_weight, total, max_weight_count, len(weight),
+    item_to_position of every listed item, len(item_to_position), chosen element, exception names."""
+    import fcntl, subprocess, os, json, pyclass2lean
+    lean = common.LEAN
+    os.makedirs(os.path.join(lean, ".audit"), exist_ok=True)
+    with open(os.path.join(lean, ".audit", "genld.lock"), "w") as lock:
+        fcntl.flock(lock, fcntl.LOCK_EX)
+        try:
+            changed, errors = pyclass2lean.regenerate()
+        except Exception as e:
+            errors = {"pyclass2lean": "crashed: %r" % e}
+        if errors:
+            ctx.disagreement("generated-listdict:translation", dict(entry="_ListDict_", errors=errors))
+            return
+        p = subprocess.run(["lake", "build", "drivergen"], cwd=lean, capture_output=True, text=True)
+    if p.returncode != 0:
+        ctx.disagreement("generated-listdict:build", dict(entry="_ListDict_", log="\n".join(
+            l for l in (p.stdout + p.stderr).splitlines() if "error" in l)[:1500]))
+        return
+    exe = os.path.join(lean, ".lake", "build", "bin", "drivergen")
+    data = "\n".join(json.dumps(r, separators=(",", ":")) for r in reqs) + "\n"
+    q = subprocess.run([exe], input=data, capture_output=True, text=True)
+    lines = q.stdout.splitlines()
+    if q.returncode != 0 or len(lines) != len(reqs):
+        raise RuntimeError("drivergen crashed: " + q.stderr[-1000:])
+    for rep, outs, line in zip(metas, impl_outs, lines):
+        gouts = json.loads(line).get("outs")
+        if gouts is None:
+            ctx.disagreement("generated-listdict:driver-error", dict(rep, model=line[:300]))
+            continue
+        ctx.count("generated-model-histories")
+        want = [({"chosen": o["chosen"]} if "chosen" in o else o) for o in outs]
+        if gouts != want:
+            i = next((i for i in range(min(len(want), len(gouts))) if want[i] != gouts[i]), min(len(want), len(gouts)))
+            ctx.disagreement("generated-listdict-state", dict(rep, first_diff_op=i, impl=want[i] if i < len(want) else None,
+                                                               generated=gouts[i] if i < len(gouts) else None))
